@@ -202,6 +202,9 @@ func GenRuleSet(t *rapid.T, o RuleOpts) *Generated {
 						}
 						break
 					}
+					if pat.Kind == "group" && !pat.Cap && pat.Kids[0].Kind == "alt" && rapid.Bool().Draw(t, "topalt") {
+						pat = pat.Kids[0] // top-level alternation: `a|b` (the rule still has to match as a whole at the offset)
+					}
 					if r.Action == "push" && rapid.Bool().Draw(t, "capwhole") {
 						// the whole match is also group 1: closers written as \1 then repeat the opener
 						pat = &Pat{Kind: "group", Cap: true, Kids: []*Pat{pat}}
@@ -266,11 +269,11 @@ func (g *Generated) flat(state string, out *[]flatRule, depth int) {
 func (g *Generated) GenInput(t *rapid.T) string {
 	type fr struct{ state, piece string }
 	stack := []fr{{"Root", ""}}
-	n := rapid.IntRange(-1, 12).Draw(t, "ilen")
-	if n < 0 {
+	n := rapid.IntRange(0, 13).Draw(t, "ilen") // rapid favours the lower bound: map it to a mid size, keep empty rare
+	if n == 0 {
+		n = 4
+	} else if n == 13 {
 		n = 0
-	} else if n == 0 {
-		n = 3
 	}
 	var sb strings.Builder
 	var pieces []string
